@@ -335,6 +335,16 @@ def buffer_tables(prog, chk):
 
     # ---- tlv_element.c: raw element
     fe = prog.fn("KSI_TlvElement_serialize", "tlv_element.c")
+    # file-local helpers of the serializer (a header-length function in place of the macro, say) are evaluated with it
+    EL = {"KSI_TlvElement_serialize"}
+    work = [fe]
+    while work:
+        g = work.pop()
+        for b_, i_, c_ in g.calls():
+            for h in prog.functions.get(c_.get("fn") or "", []):
+                if h.static and h.unit == fe.unit and h.name not in EL:
+                    EL.add(h.name)
+                    work.append(h)
     en = [p["n"] for p in fe.params]
     for (L, tag, nc, fwd) in ((0, 1, 0, 0), (3, 1, 1, 1), (3, 0x1f, 1, 0), (3, 0x20, 0, 0), (255, 2, 0, 1), (255, 0x1f, 0, 0), (256, 2, 0, 0), (65535, 3, 0, 0), (65536, 3, 0, 0),
                               (3, 0x20, 0, 1), (3, 0x20, 1, 0), (300, 1, 0, 1), (300, 1, 1, 0), (3, 0x1fff, 1, 1)):       # each flag alone, in both header forms
@@ -348,7 +358,7 @@ def buffer_tables(prog, chk):
                 inputs = {en[0]: Ptr("E"), en[1]: (Ptr("BUF") if B is not None else 0), en[2]: (B or 0), en[3]: Ptr("OUT"), en[4]: opt, "E->subList": 0,
                           "E->ptr": Ptr("SRC"), "E->ftlv.dat_len": L, "E->ftlv.hdr_len": 2, "E->ftlv.tag": tag, "E->ftlv.is_nc": nc, "E->ftlv.is_fwd": fwd}
                 ov3 = {"memcpy": lambda I, p, n, a: a[0], "memmove": lambda I, p, n, a: a[0]}
-                I = BufInterp(fe, {"BUF": B or 0}, inputs=inputs, call_model=inline_model(prog, {"KSI_TlvElement_serialize"}, fallback=succeed_model(prog, ov3)),
+                I = BufInterp(fe, {"BUF": B or 0}, inputs=inputs, call_model=inline_model(prog, EL, fallback=succeed_model(prog, ov3)),
                               on_unknown="stop", prog=prog, loop_bound=6)
                 inst = "KSI_TlvElement_serialize[len=%d,tag=%#x,opt=%d,buffer=%s]" % (L, tag, opt, "none" if B is None else B)
                 judge(inst, fe, I, I.run(), B or 0, need, hdr, L, expect_refusal_allowed=True, moved=("block" if opt == 0 else None), has_buf=B is not None, outkey=("*" + en[3],))
@@ -370,7 +380,7 @@ def buffer_tables(prog, chk):
                                    "C%d->ftlv.tag" % k: tg, "C%d->ftlv.is_nc" % k: 0, "C%d->ftlv.is_fwd" % k: 0})
                 ov4 = {"memcpy": lambda I, p, n, a: a[0], "memmove": lambda I, p, n, a: a[0], "KSI_TlvElementList_length": length,
                        "KSI_TlvElementList_elementAt": element_at}
-                I = BufInterp(fe, {"BUF": B}, inputs=inputs, call_model=inline_model(prog, {"KSI_TlvElement_serialize"}, fallback=succeed_model(prog, ov4)),
+                I = BufInterp(fe, {"BUF": B}, inputs=inputs, call_model=inline_model(prog, EL, fallback=succeed_model(prog, ov4)),
                               on_unknown="stop", prog=prog, loop_bound=8)
                 inst = "KSI_TlvElement_serialize[nested children %d+%d bytes,buffer=%d,%s]" % (L0, L1, B, "in place" if opt else "moved to front")
                 judge(inst, fe, I, I.run(), B, need, hdr, 0, expect_refusal_allowed=True, moved=(None if opt else "block"), outkey=("*" + en[3],))
@@ -386,7 +396,7 @@ def buffer_tables(prog, chk):
                 inputs = {en[0]: Ptr("E"), en[1]: Ptr("BUF"), en[2]: B, en[3]: Ptr("OUT"), en[4]: opt, "E->subList": Ptr("SUB"), "E->ptr": Ptr("SRC"),
                           "E->ftlv.dat_len": stale, "E->ftlv.hdr_len": 2, "E->ftlv.tag": 5, "E->ftlv.is_nc": 0, "E->ftlv.is_fwd": 0}
                 ov5 = {"memcpy": lambda I, p, n, a: a[0], "memmove": lambda I, p, n, a: a[0], "KSI_TlvElementList_length": length, "KSI_TlvElementList_elementAt": element_at}
-                I = BufInterp(fe, {"BUF": B}, inputs=inputs, call_model=inline_model(prog, {"KSI_TlvElement_serialize"}, fallback=succeed_model(prog, ov5)),
+                I = BufInterp(fe, {"BUF": B}, inputs=inputs, call_model=inline_model(prog, EL, fallback=succeed_model(prog, ov5)),
                               on_unknown="stop", prog=prog, loop_bound=8)
                 inst = "KSI_TlvElement_serialize[expanded, no child left, recorded length %d,buffer=%d,%s]" % (stale, B, "in place" if opt else "moved to front")
                 judge(inst, fe, I, I.run(), B, need, hdr, 0, expect_refusal_allowed=True, moved=(None if opt else "block"), outkey=("*" + en[3],))
